@@ -27,13 +27,14 @@ import (
 // are locally signed Ethereum transactions against the ABI in genesis, finality
 // reports are ordinary signed transactions).
 type Eth struct {
-	n     int
-	Tag   string
-	ops   []*ethOp
-	nonce uint64
-	Liars bool // let a threshold-crossing witness lie about the beneficiary (C15 probe only)
-	Dupes bool // resubmit ERC-20 locks after success (C15 probe only)
-	NoERC bool
+	n      int
+	Tag    string
+	ops    []*ethOp
+	nonce  uint64
+	Liars  bool // let a threshold-crossing witness lie about the beneficiary (C15 probe only)
+	Dupes  bool // resubmit ERC-20 locks after success (C15 probe only)
+	padded bool
+	NoERC  bool
 }
 
 type ethOp struct {
@@ -221,6 +222,8 @@ func (e *Eth) Plan(c *Ctx) []hist.TxSpec {
 		out = append(out, e.submit(c, e.newOp(c, "lock", u, big.NewInt(1000000000+c.R.Int63n(1e14)), pl), "lock ("+pl+")"))
 	}
 	// progress every open operation
+	var later []*ethOp
+	defer func() { e.ops = append(e.ops, later...) }()
 	for _, op := range e.ops {
 		if op.done || op.created == c.H {
 			continue
@@ -240,6 +243,15 @@ func (e *Eth) Plan(c *Ctx) []hist.TxSpec {
 					// (placed after everything else this script sends in the block: the refused resubmission is then
 					// the last transaction of the block that touches the tracker stores)
 					tail = append(tail, e.submit(c, op, "resubmission after the tracker finished ("+store+")"))
+					if op.kind == "lock" && store != "ethfailed" && !e.padded {
+						// the same Ethereum transaction once more, with bytes appended (the tracker's name is taken
+						// from the end of the submitted bytes): were it admitted, the witnesses would confirm it again
+						e.padded = true
+						raw := append(append([]byte{}, op.raw...), bytes.Repeat([]byte{0x5a}, 40)...)
+						pad := &ethOp{kind: "lock", owner: op.owner, raw: raw, name: ethcmn.BytesToHash(raw), amount: op.amount, plan: "yes", created: c.H}
+						later = append(later, pad)
+						tail = append(tail, e.submit(c, pad, "the finished lock's Ethereum transaction with 40 bytes appended (must be refused)"))
+					}
 					if store == "ethfailed" && op.kind == "lock" {
 						op.resub = true // a failed lock may legitimately be retried
 					}
